@@ -138,6 +138,7 @@ func (b *Backend) acceptLoop() {
 			sc = b.Next(n)
 		}
 		bc := &BackendConn{Backend: b, Index: n, Script: sc, W: NewWire(c), joined: make(chan struct{}), closed: make(chan struct{})}
+		bc.AcceptedAt.Store(time.Now().UnixNano())
 		b.conns = append(b.conns, bc)
 		down := b.down
 		b.mu.Unlock()
@@ -160,6 +161,11 @@ type BackendConn struct {
 	Username string
 	phase    atomic.Int32
 
+	// timestamps (UnixNano, 0 = not reached): accepted, JoinGame sent, connection ended
+	AcceptedAt atomic.Int64
+	JoinedAt   atomic.Int64
+	EndedAt    atomic.Int64
+
 	joined    chan struct{}
 	joinOnce  sync.Once
 	closed    chan struct{}
@@ -167,7 +173,7 @@ type BackendConn struct {
 	Err       error // why serve ended (io.EOF when the proxy closed)
 
 	mu        sync.Mutex
-	recv      [][]byte // payloads received in play that are not KeepAlive replies
+	recv      [][]byte // every payload received in play (KeepAlive replies included)
 	keepAlive []int64  // KeepAlive ids received in play/config
 	entityID  int
 }
@@ -215,6 +221,7 @@ func (c *BackendConn) WaitJoined(d time.Duration) bool {
 // Close closes the connection from the backend side.
 func (c *BackendConn) Close() {
 	c.closeOnce.Do(func() {
+		c.EndedAt.Store(time.Now().UnixNano())
 		_ = c.W.Close()
 		close(c.closed)
 	})
@@ -249,7 +256,7 @@ func (c *BackendConn) Kick(reason string) error {
 	return err
 }
 
-// Received returns a copy of the non-KeepAlive payloads received in play so far.
+// Received returns a copy of the payloads received in play so far.
 func (c *BackendConn) Received() [][]byte {
 	c.mu.Lock()
 	defer c.mu.Unlock()
@@ -382,6 +389,7 @@ func (c *BackendConn) serve() {
 		return
 	}
 	c.phase.Store(int32(PhaseJoined))
+	c.JoinedAt.Store(time.Now().UnixNano())
 	c.joinOnce.Do(func() { close(c.joined) })
 	// --- play: collect what arrives
 	c.W.ReadTimeout = 0
@@ -399,7 +407,6 @@ func (c *BackendConn) serve() {
 				c.mu.Lock()
 				c.keepAlive = append(c.keepAlive, ka.RandomID)
 				c.mu.Unlock()
-				continue
 			}
 		}
 		c.mu.Lock()
